@@ -192,6 +192,14 @@ func (m *Machine) intrinsic(name string, fn *ssa.Function, args []Value) (Value,
 		a, b := Str{m.cellsOf(args[0])}, Str{m.cellsOf(args[1])}
 		one, zero, neg := tt.Const(64, 1), tt.Const(64, 0), tt.Const(64, ^uint64(0))
 		return tt.Ite(m.strLess(a, b), neg, tt.Ite(m.strEq(a, b), zero, one)), true
+	case "internal/bytealg.IndexString", "internal/bytealg.Index", "strings.Index", "bytes.Index":
+		s, sub := Str{m.cellsOf(args[0])}, Str{m.cellsOf(args[1])}
+		for i := 0; i+len(sub.cells) <= len(s.cells); i++ {
+			if m.branch(m.strHasAt(s, sub, i)) {
+				return tt.Const(64, uint64(i)), true
+			}
+		}
+		return tt.Const(64, ^uint64(0)), true
 	case "internal/bytealg.MakeNoZero":
 		n := m.term(args[0])
 		if !n.IsConst() {
